@@ -341,6 +341,21 @@ class NpShim:
             return zmin(a, b)
         return numpy.minimum(a, b)
 
+    # ---- array construction: a float dtype cannot hold proxies, keep them as objects
+    def _arr(self, fn, x, *a, **kw):
+        dt = kw.get("dtype", a[0] if a else None)
+        if dt is not None and self._has_sym(x) and dt in (float, numpy.float64, numpy.float32, "float", "float64", "d"):
+            kw = dict(kw)
+            kw["dtype"] = object
+            return fn(x, *a[1:], **kw)
+        return fn(x, *a, **kw)
+
+    def array(self, x, *a, **kw):
+        return self._arr(numpy.array, x, *a, **kw)
+
+    def asarray(self, x, *a, **kw):
+        return self._arr(numpy.asarray, x, *a, **kw)
+
     # ---- predicates that NumPy cannot evaluate on object arrays
     @staticmethod
     def _has_sym(*xs):
